@@ -1045,7 +1045,10 @@ fn run_layout(r: &mut Rng, out: &mut Sink) {
                     break;
                 }
             }
-            if page.node(idx) != node {
+            if idx >= 126 {
+                out.fail(format!("C16 set_node({idx}) accepted an index outside the page"));
+            }
+            if guard(|| page.node(idx)) != Some(node) {
                 out.fail(format!("C16 node({idx}) after set_node({idx}) reads something else"));
             }
             let other = r.below(126);
